@@ -34,7 +34,13 @@ def bounds_stream(ctx):
                 # (an unsigned field is only compared with non-negative constants: a mixed signed / unsigned comparison is not
                 # propagated by the library)
                 c = r.randint(lo - (2 if sg else 0), hi + 2)
-                if q < 0.6:
+                if q < 0.15:
+                    # the constant on the left (a sized literal: a Python int there would be reflected by Python itself)
+                    c = r.randint(lo, hi)
+                    op = r.choice(["Lt", "Le", "Gt", "Ge"])
+                    stmts.append(["expr", ["bin", op, (["s", c, w + 1] if sg else ["u", c, w]), ["f", [name]]]])
+                    ks.append({"Lt": "(CMin %s)" % cz(c + 1), "Le": "(CMin %s)" % cz(c), "Gt": "(CMax %s)" % cz(c - 1), "Ge": "(CMax %s)" % cz(c)}[op])
+                elif q < 0.6:
                     op = r.choice(["Lt", "Le", "Gt", "Ge"])
                     stmts.append(["expr", ["bin", op, ["f", [name]], ["lit", c]]])
                     ks.append({"Lt": "(CMax %s)" % cz(c - 1), "Le": "(CMax %s)" % cz(c), "Gt": "(CMin %s)" % cz(c + 1), "Ge": "(CMin %s)" % cz(c)}[op])
